@@ -4,7 +4,7 @@ C15 — model of point-in-polygon:
     half-open rule `y > fmin`, `y <= fmax`, the pre-test `x <= fmax`, the abscissa `xinters` with its two
     `atol` guards, the toggle `inside = 1 - inside`;
   * the Cython wrapper (polygon extent = column min / max) and `gutils.points_inside_polygon`
-    (length check of a caller-supplied answer vector, zero initialisation);
+    (int32 conversion of `nprint`, dtype and length check of a caller-supplied answer vector, zero initialisation);
   * `Grid.cells_inside_polygon` (cell centres from `getcoord`, default tolerance, cells kept where the answer is 1).
 Besides the model of the code, this file holds the tolerance-free even-odd specification (`evenOdd`,
 `evenOddLeft`) the theorems of `Props/C15.lean` relate it to; the driver runs both.
@@ -16,6 +16,7 @@ import HydroVerif.Num
 namespace HydroVerif.C15
 
 inductive Err
+  | nprintRange    -- `np.int32(nprint)` of a Python integer outside the int32 range (gutils.py: OverflowError, first statement)
   | insideDtype    -- caller-supplied answer vector not of dtype int32 (gutils.py: ValueError, tested first)
   | insideLength   -- caller-supplied answer vector of the wrong length (gutils.py: ValueError, tested second)
   | shapeAssert    -- `points.shape[1] == 2` / `polygon.shape[1] == 2` (c_hydrodiy_gis.pyx: bare AssertionError)
@@ -127,6 +128,14 @@ def pointsInsidePolygonCall (atol : α) (ptsWidth : Nat) (pts : List (α × α))
   else if (match inside with | some (_, n) => n != pts.length | none => false) then .error .insideLength
   else if ptsWidth != 2 || polyWidth != 2 then .error .shapeAssert
   else pointsInsidePolygon atol pts poly (inside.map (·.2))
+
+/-- … with the `nprint` argument. `nprint = np.int32(nprint)` is the first statement of the wrapper: an integer outside
+the int32 range is refused (OverflowError) before any other argument is looked at; a value in range only sets how
+often the kernel logs its progress on stdout (`nprint > 0`) and decides no answer -/
+def pointsInsidePolygonCallN (nprint : Int) (atol : α) (ptsWidth : Nat) (pts : List (α × α)) (polyWidth : Nat)
+    (poly : List (α × α)) (inside : Option (Bool × Nat)) : Except Err (List Bool) :=
+  if nprint < -2147483648 || 2147483647 < nprint then .error .nprintRange
+  else pointsInsidePolygonCall atol ptsWidth pts polyWidth poly inside
 
 /-! ### `Grid.cells_inside_polygon` -/
 
